@@ -704,14 +704,16 @@ func vxC10Exec(a vxC10Args) {
 		if op == vxC10OpAddStatic {
 			last := -2
 			for i, e := range s.leases {
+				match := vxC10SameMAC(e.HWAddr, mac) || e.IP == ip
+				if match && last == i-1 {
+					// the entry after a removed one is not examined
+					adjacent = true
+				}
 				if e.IsStatic {
 					continue
 				}
-				if vxC10SameMAC(e.HWAddr, mac) || e.IP == ip {
+				if match {
 					replaced++
-					if last == i-1 {
-						adjacent = true
-					}
 					last = i
 				} else if l.Hostname != "" && e.Hostname == l.Hostname {
 					nameClash = true
@@ -864,7 +866,8 @@ var vxC10AllOps = []int{
 func vxC10History() {
 	k, nHosts, pool := 3, 2, 2
 	if vx.Thorough() {
-		nHosts, pool = 3, 3
+		nHosts = 3
+		pool = 2 + vx.Choice("pool", 2)
 	}
 	vxC10Init(pool, 0)
 	vxC10Run(k, vxC10AllOps, 0, nHosts)
